@@ -356,9 +356,23 @@ func (m *machine) run(fn *ssa.Function, args []aval, depth int) []aval {
 					} else {
 						f.env[x] = &acell{v: aNil{}} // one-element varargs backing array
 					}
+				} else if st, ok := t.Underlying().(*types.Struct); ok {
+					// a local record (results carried between helpers): one cell per field
+					so := &astruct{name: "local:" + t.String()}
+					for i := 0; i < st.NumFields(); i++ {
+						so.fields = append(so.fields, &acell{v: aNil{}})
+					}
+					f.env[x] = so
 				} else {
 					f.env[x] = &acell{v: aNil{}}
 				}
+			case *ssa.Field:
+				so, ok := m.get(f, x.X).(*astruct)
+				if !ok || x.Field >= len(so.fields) {
+					m.fail("field of non-struct value %T at %s", m.get(f, x.X), m.w.InstrPos(in))
+					return nil
+				}
+				f.env[x] = so.fields[x.Field].v
 			case *ssa.FieldAddr:
 				base := m.get(f, x.X)
 				so, ok := base.(*astruct)
@@ -381,7 +395,16 @@ func (m *machine) run(fn *ssa.Function, args []aval, depth int) []aval {
 					case *acell:
 						f.env[x] = c.v
 					case *astruct:
-						f.env[x] = c
+						if strings.HasPrefix(c.name, "local:") {
+							// the value of a local record: a copy as of now
+							cp := &astruct{name: c.name}
+							for _, fc := range c.fields {
+								cp.fields = append(cp.fields, &acell{v: fc.v, isKey: fc.isKey})
+							}
+							f.env[x] = cp
+						} else {
+							f.env[x] = c
+						}
 					default:
 						m.fail("load through %T at %s", p, m.w.InstrPos(in))
 						return nil
@@ -398,6 +421,15 @@ func (m *machine) run(fn *ssa.Function, args []aval, depth int) []aval {
 				}
 			case *ssa.Store:
 				p := m.get(f, x.Addr)
+				if dst, isS := p.(*astruct); isS {
+					// a local record assigned as a whole: field by field
+					if src, ok := m.get(f, x.Val).(*astruct); ok && len(src.fields) == len(dst.fields) {
+						for i := range dst.fields {
+							dst.fields[i].v = src.fields[i].v
+						}
+						continue
+					}
+				}
 				c, ok := p.(*acell)
 				if !ok {
 					m.fail("store through %T at %s", p, m.w.InstrPos(in))
